@@ -737,7 +737,11 @@ func (x *Exec) sprintfModel(st *State, c *ssa.CallCommon) (*Val, bool) {
 		return scalar(t, types.Typ[types.String]), true
 	}
 	args := append([]*Term{x.strLit(format)}, terms...)
-	return scalar(x.ufApp("sprintf", SStr, args...), types.Typ[types.String]), true
+	sig := "sprintf"
+	for _, a := range args[1:] {
+		sig += "_" + string(a.S)
+	}
+	return scalar(x.ufApp(sig, SStr, args...), types.Typ[types.String]), true
 }
 
 func constantString(c *ssa.Const) string {
